@@ -375,6 +375,15 @@ Proof.
   - apply Nat.ltb_ge in E. rewrite nth_overflow by (rewrite map_length, seq_length; exact E). rewrite Sv_zero by exact E. ring.
 Qed.
 
+(* the returned series: S = sum_kappa S_kappa = N psihat(theta), R = R *)
+Lemma ced_outputs_agree R :
+  vsum (drop_last 2 (Phi_ced c N tau g phiS0 phiR0 theta R)) == N * peval c theta /\
+  vnth 0 (take_last 2 (Phi_ced c N tau g phiS0 phiR0 theta R)) == R.
+Proof.
+  unfold Phi_ced. rewrite drop_last_app, take_last_app by reflexivity. split; [|reflexivity].
+  rewrite Skappa_eq. unfold vsum. apply S_moment0.
+Qed.
+
 Lemma ebcm_to_ced R :
   ps theta == peval c theta -> psP theta == a theta -> psP 1 == a 1 ->
   ~ tau == 0 -> ~ N == 0 -> ~ u == 0 -> ~ a theta == 0 -> ~ a 1 == 0 ->
